@@ -635,13 +635,21 @@ fn variant_default(v: &VariantTy) -> TVal {
 /// Type-level rewrites of `ty` — at this node first, then inside its children — each with the
 /// conversion that carries *every* value of the old type to a value of the new type (so the
 /// elements of a homogeneous container are rewritten together).
-fn type_steps(ty: &Ty) -> Vec<(Ty, Conv)> {
-    let mut out: Vec<(Ty, Conv)> = Vec::new();
+fn type_steps(ty: &Ty, emit: &mut dyn FnMut(Ty, Conv) -> bool) -> bool {
+    // `emit` returns true to stop; the function returns true if it was stopped
+    macro_rules! out_push {
+        ($e:expr) => {{
+            let (t, c) = $e;
+            if emit(t, c) {
+                return true;
+            }
+        }};
+    }
     // ---- rewrites of this node
     match ty {
         Ty::Option(t) => {
             let d = t.default_val();
-            out.push((
+            out_push!((
                 (**t).clone(),
                 conv(move |v| match v {
                     TVal::Some(x) => (**x).clone(),
@@ -649,18 +657,18 @@ fn type_steps(ty: &Ty) -> Vec<(Ty, Conv)> {
                 }),
             ));
         }
-        Ty::Newtype(_, t) => out.push(((**t).clone(), conv(|v| v.clone()))),
+        Ty::Newtype(_, t) => out_push!(((**t).clone(), conv(|v| v.clone()))),
         Ty::Seq(t) => {
             let d = t.default_val();
             let d2 = d.clone();
-            out.push((
+            out_push!((
                 (**t).clone(),
                 conv(move |v| match v {
                     TVal::Seq(xs) => xs.first().cloned().unwrap_or_else(|| d.clone()),
                     _ => d.clone(),
                 }),
             ));
-            out.push((
+            out_push!((
                 (**t).clone(),
                 conv(move |v| match v {
                     TVal::Seq(xs) => xs.last().cloned().unwrap_or_else(|| d2.clone()),
@@ -672,7 +680,7 @@ fn type_steps(ty: &Ty) -> Vec<(Ty, Conv)> {
             let is_ts = matches!(ty, Ty::TupleStruct(..));
             for (i, t) in ts.iter().enumerate() {
                 let d = t.default_val();
-                out.push((
+                out_push!((
                     t.clone(),
                     conv(move |v| match v {
                         TVal::Tuple(xs) => xs.get(i).cloned().unwrap_or_else(|| d.clone()),
@@ -681,7 +689,7 @@ fn type_steps(ty: &Ty) -> Vec<(Ty, Conv)> {
                 ));
             }
             if is_ts {
-                out.push((Ty::Tuple(ts.clone()), conv(|v| v.clone())));
+                out_push!((Ty::Tuple(ts.clone()), conv(|v| v.clone())));
             }
             let min = if is_ts { 2 } else { 1 };
             if ts.len() > min {
@@ -692,7 +700,7 @@ fn type_steps(ty: &Ty) -> Vec<(Ty, Conv)> {
                         Ty::TupleStruct(n, _) => Ty::TupleStruct(*n, t2),
                         _ => Ty::Tuple(t2),
                     };
-                    out.push((
+                    out_push!((
                         nt,
                         conv(move |v| match v {
                             TVal::Tuple(xs) => {
@@ -710,14 +718,14 @@ fn type_steps(ty: &Ty) -> Vec<(Ty, Conv)> {
         }
         Ty::Map(k, w) => {
             let (dk, dw) = (k.default_val(), w.default_val());
-            out.push((
+            out_push!((
                 (**w).clone(),
                 conv(move |v| match v {
                     TVal::Map(ps) => ps.first().map(|p| p.1.clone()).unwrap_or_else(|| dw.clone()),
                     _ => dw.clone(),
                 }),
             ));
-            out.push((
+            out_push!((
                 (**k).clone(),
                 conv(move |v| match v {
                     TVal::Map(ps) => ps.first().map(|p| p.0.clone()).unwrap_or_else(|| dk.clone()),
@@ -725,7 +733,7 @@ fn type_steps(ty: &Ty) -> Vec<(Ty, Conv)> {
                 }),
             ));
             if !k.is_scalar() {
-                out.push((
+                out_push!((
                     Ty::map(Ty::Str, (**w).clone()),
                     conv(|v| match v {
                         TVal::Map(ps) => TVal::Map(ps.iter().enumerate().map(|(i, (_, b))| (TVal::Str(format!("k{i}")), b.clone())).collect()),
@@ -734,7 +742,7 @@ fn type_steps(ty: &Ty) -> Vec<(Ty, Conv)> {
                 ));
                 let canon = Ty::strukt(5, vec![Ty::I32], false);
                 if **k != canon {
-                    out.push((
+                    out_push!((
                         Ty::map(canon, (**w).clone()),
                         conv(|v| match v {
                             TVal::Map(ps) => {
@@ -749,7 +757,7 @@ fn type_steps(ty: &Ty) -> Vec<(Ty, Conv)> {
         Ty::Struct(s) => {
             for (i, f) in s.body.fields.iter().enumerate() {
                 let d = f.ty.default_val();
-                out.push((
+                out_push!((
                     f.ty.clone(),
                     conv(move |v| match v {
                         TVal::Struct(xs) => xs.get(i).cloned().unwrap_or_else(|| d.clone()),
@@ -761,7 +769,7 @@ fn type_steps(ty: &Ty) -> Vec<(Ty, Conv)> {
                 for i in 0..s.body.fields.len() {
                     let mut ts: Vec<Ty> = s.body.fields.iter().map(|f| f.ty.clone()).collect();
                     ts.remove(i);
-                    out.push((
+                    out_push!((
                         Ty::strukt(s.name, ts, false),
                         conv(move |v| match v {
                             TVal::Struct(xs) => {
@@ -783,7 +791,7 @@ fn type_steps(ty: &Ty) -> Vec<(Ty, Conv)> {
                 // keep only variant j
                 if e.variants.len() > 1 || e.voff != 0 {
                     let d = dflt.clone();
-                    out.push((
+                    out_push!((
                         enum_single(e, var.clone()),
                         conv(move |v| match v {
                             TVal::Variant(i, p) if *i as usize == j => TVal::variant(0, (**p).clone()),
@@ -805,15 +813,15 @@ fn type_steps(ty: &Ty) -> Vec<(Ty, Conv)> {
                 };
                 match var {
                     VariantTy::Unit => {}
-                    VariantTy::Newtype(t) => out.push((t.clone(), payload(dflt.clone()))),
+                    VariantTy::Newtype(t) => out_push!((t.clone(), payload(dflt.clone()))),
                     VariantTy::Tuple(ts) => {
-                        out.push((Ty::Tuple(ts.clone()), payload(dflt.clone())));
-                        out.push((enum_single(e, VariantTy::Newtype(Ty::Tuple(ts.clone()))), rewrap(dflt.clone())));
+                        out_push!((Ty::Tuple(ts.clone()), payload(dflt.clone())));
+                        out_push!((enum_single(e, VariantTy::Newtype(Ty::Tuple(ts.clone()))), rewrap(dflt.clone())));
                     }
                     VariantTy::Struct(fs) => {
                         let st = Ty::strukt(6, fs.fields.iter().map(|f| f.ty.clone()).collect(), false);
-                        out.push((st.clone(), payload(dflt.clone())));
-                        out.push((enum_single(e, VariantTy::Newtype(st)), rewrap(dflt.clone())));
+                        out_push!((st.clone(), payload(dflt.clone())));
+                        out_push!((enum_single(e, VariantTy::Newtype(st)), rewrap(dflt.clone())));
                     }
                 }
             }
@@ -821,14 +829,14 @@ fn type_steps(ty: &Ty) -> Vec<(Ty, Conv)> {
         _ => {}
     }
     if *ty != Ty::I32 {
-        out.push((Ty::I32, conv(|_| TVal::I(0))));
+        out_push!((Ty::I32, conv(|_| TVal::I(0))));
     }
     // ---- rewrites inside the children, lifted
     match ty {
         Ty::Option(t) => {
-            for (t2, c) in type_steps(t) {
+            if type_steps(t, &mut |t2, c| {
                 if !t2.absorbs_null() {
-                    out.push((
+                    out_push!((
                         Ty::opt(t2),
                         conv(move |v| match v {
                             TVal::Some(x) => TVal::some(c(x)),
@@ -836,75 +844,96 @@ fn type_steps(ty: &Ty) -> Vec<(Ty, Conv)> {
                         }),
                     ));
                 }
+                false
+            }) {
+                return true;
             }
         }
         Ty::Newtype(n, t) => {
-            for (t2, c) in type_steps(t) {
-                out.push((Ty::newtype(*n, t2), c));
+            if type_steps(t, &mut |t2, c| {
+                out_push!((Ty::newtype(*n, t2), c));
+                false
+            }) {
+                return true;
             }
         }
         Ty::Seq(t) => {
-            for (t2, c) in type_steps(t) {
-                out.push((
+            if type_steps(t, &mut |t2, c| {
+                out_push!((
                     Ty::seq(t2),
                     conv(move |v| match v {
                         TVal::Seq(xs) => TVal::Seq(xs.iter().map(|x| c(x)).collect()),
                         other => other.clone(),
                     }),
                 ));
+                false
+            }) {
+                return true;
             }
         }
         Ty::Tuple(ts) | Ty::TupleStruct(_, ts) => {
             for i in 0..ts.len() {
-                for (t2, c) in type_steps(&ts[i]) {
+                if type_steps(&ts[i], &mut |t2, c| {
                     let mut tt = ts.clone();
                     tt[i] = t2;
                     let nt = match ty {
                         Ty::TupleStruct(n, _) => Ty::TupleStruct(*n, tt),
                         _ => Ty::Tuple(tt),
                     };
-                    out.push((
+                    out_push!((
                         nt,
                         conv(move |v| match v {
                             TVal::Tuple(xs) => TVal::Tuple(xs.iter().enumerate().map(|(j, x)| if j == i { c(x) } else { x.clone() }).collect()),
                             other => other.clone(),
                         }),
                     ));
+                    false
+                }) {
+                    return true;
                 }
             }
         }
         Ty::Map(k, w) => {
-            for (t2, c) in type_steps(w) {
-                out.push((
+            if type_steps(w, &mut |t2, c| {
+                out_push!((
                     Ty::map((**k).clone(), t2),
                     conv(move |v| match v {
                         TVal::Map(ps) => TVal::Map(ps.iter().map(|(a, b)| (a.clone(), c(b))).collect()),
                         other => other.clone(),
                     }),
                 ));
+                false
+            }) {
+                return true;
             }
-            for (t2, c) in type_steps(k) {
-                out.push((
+            if type_steps(k, &mut |t2, c| {
+                out_push!((
                     Ty::map(t2, (**w).clone()),
                     conv(move |v| match v {
                         TVal::Map(ps) => TVal::Map(ps.iter().map(|(a, b)| (c(a), b.clone())).collect()),
                         other => other.clone(),
                     }),
                 ));
+                false
+            }) {
+                return true;
             }
         }
         Ty::Struct(s) => {
             for i in 0..s.body.fields.len() {
-                for (t2, c) in type_steps(&s.body.fields[i].ty) {
+                if type_steps(&s.body.fields[i].ty, &mut |t2, c| {
                     let mut ts: Vec<Ty> = s.body.fields.iter().map(|f| f.ty.clone()).collect();
                     ts[i] = t2;
-                    out.push((
+                    out_push!((
                         Ty::strukt(s.name, ts, false),
                         conv(move |v| match v {
                             TVal::Struct(xs) => TVal::Struct(xs.iter().enumerate().map(|(j, x)| if j == i { c(x) } else { x.clone() }).collect()),
                             other => other.clone(),
                         }),
                     ));
+                    false
+                }) {
+                    return true;
                 }
             }
         }
@@ -924,25 +953,34 @@ fn type_steps(ty: &Ty) -> Vec<(Ty, Conv)> {
                 match var {
                     VariantTy::Unit => {}
                     VariantTy::Newtype(t) => {
-                        for (t2, c) in type_steps(t) {
-                            out.push(lift(VariantTy::Newtype(t2), c));
+                        if type_steps(t, &mut |t2, c| {
+                            out_push!(lift(VariantTy::Newtype(t2), c));
+                            false
+                        }) {
+                            return true;
                         }
                     }
                     VariantTy::Tuple(ts) => {
-                        for (t2, c) in type_steps(&Ty::Tuple(ts.clone())) {
+                        if type_steps(&Ty::Tuple(ts.clone()), &mut |t2, c| {
                             if let Ty::Tuple(t3) = t2
                                 && t3.len() >= 2
                             {
-                                out.push(lift(VariantTy::Tuple(t3), c));
+                                out_push!(lift(VariantTy::Tuple(t3), c));
                             }
+                            false
+                        }) {
+                            return true;
                         }
                     }
                     VariantTy::Struct(fs) => {
                         let st = Ty::strukt(6, fs.fields.iter().map(|f| f.ty.clone()).collect(), false);
-                        for (t2, c) in type_steps(&st) {
+                        if type_steps(&st, &mut |t2, c| {
                             if let Ty::Struct(s3) = t2 {
-                                out.push(lift(VariantTy::Struct(s3.body), c));
+                                out_push!(lift(VariantTy::Struct(s3.body), c));
                             }
+                            false
+                        }) {
+                            return true;
                         }
                     }
                 }
@@ -950,7 +988,7 @@ fn type_steps(ty: &Ty) -> Vec<(Ty, Conv)> {
         }
         _ => {}
     }
-    out
+    false
 }
 
 /// Value-level reductions (the type is kept): drop elements, `Some -> None`, canonical leaves.
@@ -1059,12 +1097,27 @@ pub fn shrink_steps(ty: &Ty, v: &TVal) -> Vec<(Ty, TVal)> {
     for v2 in value_steps(ty, v) {
         out.push((ty.clone(), v2));
     }
-    for (t2, c) in type_steps(ty) {
+    type_steps(ty, &mut |t2, c| {
         let v2 = c(v);
         out.push((t2, v2));
-    }
+        false
+    });
     out.retain(|(t, x)| t.check(x) && keys_distinct(t, x));
     out
+}
+
+/// Lazy variant of `shrink_steps`: candidates are produced one at a time, in the same order, and
+/// `visit` returns true to stop.
+pub fn for_each_shrink_step(ty: &Ty, v: &TVal, visit: &mut dyn FnMut(Ty, TVal) -> bool) {
+    for v2 in value_steps(ty, v) {
+        if ty.check(&v2) && keys_distinct(ty, &v2) && visit(ty.clone(), v2) {
+            return;
+        }
+    }
+    type_steps(ty, &mut |t2, c| {
+        let v2 = c(v);
+        t2.check(&v2) && keys_distinct(&t2, &v2) && visit(t2, v2)
+    });
 }
 
 /// Stable hash of a value (TVal has no `Hash`).
@@ -1133,11 +1186,28 @@ pub fn hash_tval(v: &TVal, h: &mut u64) {
     }
 }
 
-/// Stable hash of a whole case.
+struct Fnv(u64);
+impl std::hash::Hasher for Fnv {
+    fn finish(&self) -> u64 {
+        self.0
+    }
+    fn write(&mut self, bytes: &[u8]) {
+        for b in bytes {
+            self.0 ^= *b as u64;
+            self.0 = self.0.wrapping_mul(0x100000001b3);
+        }
+    }
+}
+
+/// Stable hash of a whole case (FNV over the derived `Hash` of the type, the value and the options).
 pub fn hash_case(ty: &Ty, v: &TVal, o: &Opt) -> u64 {
-    let mut h = crate::rng::fnv_parts(&[ty.to_string().as_bytes(), &o.hash_bytes()]);
-    hash_tval(v, &mut h);
-    h
+    use std::hash::{Hash, Hasher};
+    let mut h = Fnv(0xcbf29ce484222325);
+    ty.hash(&mut h);
+    o.hash(&mut h);
+    let mut x = h.finish();
+    hash_tval(v, &mut x);
+    x
 }
 
 /// A locally minimal failing case.
@@ -1185,16 +1255,19 @@ impl Shrinker {
             self.memo_min.clear();
         }
         let m0 = measure(ty, v);
-        let mut found: Option<std::rc::Rc<Minimal>> = None;
-        for (t2, v2) in shrink_steps(ty, v) {
-            if measure(&t2, &v2) >= m0 || !t2.check(&v2) {
-                continue;
+        let mut first: Option<(Ty, TVal)> = None;
+        for_each_shrink_step(ty, v, &mut |t2, v2| {
+            if measure(&t2, &v2) >= m0 {
+                return false;
             }
             if self.fails(&t2, &v2, o) {
-                found = Some(self.minimal(&t2, &v2, o));
-                break;
+                first = Some((t2, v2));
+                true
+            } else {
+                false
             }
-        }
+        });
+        let mut found: Option<std::rc::Rc<Minimal>> = first.map(|(t2, v2)| self.minimal(&t2, &v2, o));
         if found.is_none() {
             for o2 in o.toward_default() {
                 if self.fails(ty, v, &o2) {
@@ -1288,4 +1361,143 @@ pub fn opt_class(o: &Opt) -> String {
         out.push("folded_wrap_chars".into());
     }
     out.join(",")
+}
+
+// ------------------------------------------------------------------ structural triggers (signatures of C13, reused by C20)
+
+fn seq_like(k: &str) -> bool {
+    matches!(k, "seq" | "tuple" | "tuple-struct")
+}
+fn map_like(k: &str) -> bool {
+    matches!(k, "map" | "struct" | "newtype-variant" | "struct-variant" | "tuple-variant")
+}
+
+fn is_complex_key_ty(t: &Ty) -> bool {
+    match t.peel_newtypes() {
+        Ty::Option(inner) => is_complex_key_ty(inner),
+        Ty::Enum(e) => e.variants.iter().any(|v| !matches!(v, VariantTy::Unit)),
+        t => !t.is_scalar(),
+    }
+}
+
+/// First structural trigger present in the minimal case (fixed priority).
+pub fn shape_trigger(ty: &Ty, v: &TVal) -> String {
+    if any_node(ty, v, &|t, _| matches!(t, Ty::TupleStruct(..))) {
+        return "tuple-struct".into();
+    }
+    if any_node(ty, v, &|t, x| kind(t, x) == "tuple-variant") {
+        return "tuple-variant".into();
+    }
+    if any_node(ty, v, &|_, x| matches!(x, TVal::Str(s) if s.contains('\r'))) {
+        return "string-with-carriage-return".into();
+    }
+    if any_node(ty, v, &|_, x| {
+        matches!(x, TVal::Str(s) if s.contains('\n') && s.split('\n').find(|l| !l.is_empty()).map(|l| l.starts_with(' ')).unwrap_or(false))
+    }) {
+        return "block-scalar-with-leading-space".into();
+    }
+    if any_node(ty, v, &|t, x| match (t, x) {
+        (Ty::Map(..), TVal::Map(ps)) => ps.iter().any(|(k, _)| matches!(k, TVal::Str(s) if s.chars().count() > 1024)),
+        _ => false,
+    }) {
+        return "key-longer-than-1024".into();
+    }
+    // complex keys
+    let mut ck: Option<&'static str> = None;
+    let mut note = |s: &'static str| {
+        // priority inside the class: seq-value > seq-key > map-key
+        let rank = |x: &str| match x {
+            "complex-key:sequence-value" => 3,
+            "complex-key:sequence-key" => 2,
+            _ => 1,
+        };
+        if ck.map(|c| rank(c) < rank(s)).unwrap_or(true) {
+            ck = Some(s);
+        }
+    };
+    fn walk(ty: &Ty, v: &TVal, note: &mut dyn FnMut(&'static str)) {
+        if let (Ty::Map(k, w), TVal::Map(ps)) = (ty.peel_newtypes(), v)
+            && is_complex_key_ty(k)
+        {
+            for (a, b) in ps {
+                let vk = kind(w, b);
+                let kk = kind(k, a);
+                if seq_like(vk) {
+                    note("complex-key:sequence-value");
+                } else if seq_like(kk) {
+                    note("complex-key:sequence-key");
+                } else {
+                    note("complex-key:mapping-key");
+                }
+            }
+        }
+        match (ty, v) {
+            (Ty::Newtype(_, t), x) => walk(t, x, note),
+            (Ty::Option(t), TVal::Some(x)) => walk(t, x, note),
+            _ => {
+                for (_, t, x) in children(ty, v) {
+                    walk(t, x, note);
+                }
+            }
+        }
+    }
+    walk(ty, v, &mut note);
+    if let Some(c) = ck {
+        return c.into();
+    }
+    let mut empty = false;
+    let mut nested_seq = false;
+    let mut map_in_seq = false;
+    let mut block = false;
+    contexts(ty, v, &mut |p, pos, c| {
+        if c == "seq-empty" || c == "map-empty" {
+            empty = true;
+        }
+        if seq_like(p) && pos == "item" && seq_like(c) {
+            nested_seq = true;
+        }
+        if seq_like(p) && pos == "item" && map_like(c) {
+            map_in_seq = true;
+        }
+        if c == "str-multiline" {
+            block = true;
+        }
+    });
+    if empty {
+        return "empty-collection".into();
+    }
+    if nested_seq {
+        return "sequence-in-sequence".into();
+    }
+    if map_in_seq {
+        return "mapping-in-sequence".into();
+    }
+    if block {
+        return "block-scalar".into();
+    }
+    format!("other:{}", form(ty, v))
+}
+
+
+/// Does the tree contain a map whose key type is not a scalar (a `? ` key)?
+pub fn has_complex_key(ty: &Ty, v: &TVal) -> bool {
+    any_node(ty, v, &|t, x| matches!((t, x), (Ty::Map(k, _), TVal::Map(ps)) if !ps.is_empty() && is_complex_key_ty(k)))
+}
+
+/// Features of a tree that belong to C13's shape findings whatever the options are.
+pub fn c13_shape_class(ty: &Ty, v: &TVal) -> Option<&'static str> {
+    if any_node(ty, v, &|t, _| matches!(t, Ty::TupleStruct(..))) {
+        Some("tuple-struct")
+    } else if any_node(ty, v, &|t, x| kind(t, x) == "tuple-variant") {
+        Some("tuple-variant")
+    } else if has_complex_key(ty, v) {
+        Some("complex-key")
+    } else if any_node(ty, v, &|t, x| match (t, x) {
+        (Ty::Map(..), TVal::Map(ps)) => ps.iter().any(|(k, _)| matches!(k, TVal::Str(s) if s.chars().count() > 1024)),
+        _ => false,
+    }) {
+        Some("key-longer-than-1024")
+    } else {
+        None
+    }
 }
